@@ -597,9 +597,20 @@ func vSyncState(conc *vConc, ks []int) (channel.Keys, map[channel.Key]telem.Data
 // vSyncReplay steps two real codecs through one behaviour of CodecSync.tla.
 func vSyncReplay(hist []vSStep, conc *vConc, static bool) (step int, kind, what string) {
 	step = -1
+	// a disagreement about what the specification pins beyond the property (seq numbers,
+	// laziness) is remembered and the replay goes on: what the decoder finally returns for
+	// the frames decides whether the property itself is contradicted
+	driftStep, drift := -1, ""
+	note := func(i int, s string) {
+		if drift == "" {
+			driftStep, drift = i, s
+		}
+	}
 	defer func() {
 		if r := recover(); r != nil {
 			kind, what = "violation", fmt.Sprintf("panic: %v", r)
+		} else if kind == "" && drift != "" {
+			step, kind, what = driftStep, "drift", drift
 		}
 	}()
 	codecs := map[string]*Codec{}
@@ -659,7 +670,7 @@ func vSyncReplay(hist []vSStep, conc *vConc, static bool) (step int, kind, what 
 				return i, "violation", "Encode failed: " + err.Error()
 			}
 			if len(b) < 5 || int(binary.LittleEndian.Uint32(b[1:5])) != st.Seq {
-				return i, "drift", fmt.Sprintf("frame tagged with seq %x, specification %d", b, st.Seq)
+				note(i, fmt.Sprintf("frame tagged with seq %x, specification %d", b[:min(5, len(b))], st.Seq))
 			}
 			wire = append(wire, sent{wire: b, keys: wantK, ser: wantS})
 		case "dec":
@@ -679,11 +690,11 @@ func vSyncReplay(hist []vSStep, conc *vConc, static bool) (step int, kind, what 
 			}
 			switch {
 			case st.Kind == "frame" && err != nil:
-				return i, "violation", fmt.Sprintf("decoder knows seq %d but Decode failed: %v", st.Seq, err)
+				return i, "violation", fmt.Sprintf("decoder was given update %d but Decode failed: %v", st.Seq, err)
 			case err == nil && same != "":
 				return i, "violation", fmt.Sprintf("frame with seq %d decoded to a different frame (spec: %s): %s", st.Seq, st.Kind, same)
 			case st.Kind == "error" && err == nil:
-				return i, "drift", "decoded a frame the specification expects to be refused"
+				note(i, "decoded a frame the specification expects to be refused")
 			}
 		}
 		for side, want := range map[string][2]int{"enc": {st.Post.Es, st.Post.Eq}, "dec": {st.Post.Ds, st.Post.Dq}} {
@@ -693,8 +704,8 @@ func vSyncReplay(hist []vSStep, conc *vConc, static bool) (step int, kind, what 
 				gs, gq, gn = int(c.mu.seqNum), len(c.mu.updates), len(c.mu.states)
 			}
 			if gs != want[0] || gq != want[1] || gn != want[0] {
-				return i, "drift", fmt.Sprintf("%s codec seqNum=%d states=%d queued=%d, specification seqNum=%d queued=%d",
-					side, gs, gn, gq, want[0], want[1])
+				note(i, fmt.Sprintf("%s codec seqNum=%d states=%d queued=%d, specification seqNum=%d queued=%d",
+					side, gs, gn, gq, want[0], want[1]))
 			}
 		}
 	}
